@@ -23,6 +23,8 @@ var c02Batches = [][]uint64{
 	{65536, 0, 0},             // unsorted, duplicate
 	{131072 + 5, 65535, 7},    // across containers, one value outside c02Vals
 	{1, 65536, 131072 + 5, 1}, // duplicate at the end
+	{0, 65536, 1},             // container A, then B, then A again (batch-local container reuse)
+	{65535, 131072 + 5, 2},    // the same, other containers, second visit outside c02Vals
 }
 
 // payload sets for ImportRoaringBits
@@ -145,6 +147,12 @@ func (in *c02Inst) Apply(op vx.Op) (got, want string) {
 		return fmt.Sprint(ch, err, c02RowSet(rows)), fmt.Sprint(w, nil, c02RowSet(wrows))
 	case "optimize":
 		b.Optimize()
+		return "", ""
+	case "freeze":
+		// takes a frozen view (what a snapshot / row read does): afterwards every container of the
+		// bitmap is shared and the next mutation of each has to copy it first. The view itself is
+		// dropped — whether IT stays intact is property C03's business.
+		_ = b.Freeze()
 		return "", ""
 	case "rContains":
 		var g, w strings.Builder
@@ -302,7 +310,7 @@ func c02RowSet(m map[uint64]int) string {
 	return sb.String()
 }
 
-// Fingerprint: model contents + per-container encoding and emptiness + B-tree lookaside state.
+// Fingerprint: model contents + per-container encoding, emptiness and frozen flag + B-tree lookaside state.
 func (in *c02Inst) Fingerprint() string {
 	var sb strings.Builder
 	sb.WriteString(vx.SortedU64(in.sorted()))
@@ -310,7 +318,11 @@ func (in *c02Inst) Fingerprint() string {
 	cit, _ := in.b.Containers.Iterator(0)
 	for cit.Next() {
 		k, c := cit.Value()
-		fmt.Fprintf(&sb, "%d:%d:%d,", k, c.typ(), c.N())
+		fz := ""
+		if c.frozen() {
+			fz = "f" // a frozen (shared) container takes the copy-on-write path on its next mutation
+		}
+		fmt.Fprintf(&sb, "%d:%d:%d%s,", k, c.typ(), c.N(), fz)
 	}
 	if bt, ok := in.b.Containers.(*bTreeContainers); ok {
 		var alias string
@@ -343,7 +355,8 @@ func c02Alphabet(thorough bool) []vx.Op {
 	for i := range c02Payloads {
 		a = append(a, vx.O("import", 0, int64(i)), vx.O("import", 1, int64(i)))
 	}
-	a = append(a, vx.O("optimize"), vx.O("directAdd", 65536), vx.O("directAddN", 1), vx.O("directRemoveN", 1))
+	a = append(a, vx.O("optimize"), vx.O("freeze"), vx.O("directAdd", 65536), vx.O("directAddN", 1), vx.O("directRemoveN", 1),
+		vx.O("directAddN", 4), vx.O("directRemoveN", 4))
 	if thorough {
 		a = append(a, vx.O("fill", 600), vx.O("unfill", 600))
 	}
